@@ -35,7 +35,8 @@ def main():
                 orig = sn.glob
                 sn.glob = lambda *a, **k: sorted(orig(*a, **k))[::-1]
             ds = sn.read_sensornet_files(directory=directory, silent=True, timezone_netcdf=opts.get("timezone_netcdf", "UTC"),
-                                         timezone_input_files=opts.get("timezone_input_files", "UTC"))
+                                         timezone_input_files=opts.get("timezone_input_files", "UTC"),
+                                         **({"fiber_length": opts["fiber_length"]} if opts.get("fiber_length") else {}))
         else:
             raise ValueError(kind)
         for k in ("time", "timestart", "timeend"):
